@@ -8,7 +8,8 @@ mkdir -p /tmp/scr; git -C /repo worktree prune
 git -C /repo worktree add --detach "$wt" HEAD >/dev/null 2>&1 || { echo "$sid worktree-failed"; exit 2; }
 patch="$here/seeded/$sid/patch.diff"; [ -f "$here/seeded/$sid/patch_head.diff" ] && patch="$here/seeded/$sid/patch_head.diff"
 if ! git -C "$wt" apply "$patch" 2>/dev/null; then
-  if ! git -C "$wt" apply --3way "$patch" >/dev/null 2>&1; then echo "$sid $prop NOAPPLY"; git -C /repo worktree remove --force "$wt"; exit 2; fi
+  if ! git -C "$wt" apply --3way "$patch" >/dev/null 2>&1 || [ -n "$(git -C "$wt" diff --name-only --diff-filter=U)" ] || grep -rlq '^<<<<<<< ' "$wt/hdl21" "$wt/pdks" --include=*.py 2>/dev/null; then
+    echo "$sid $prop NOAPPLY"; git -C /repo worktree remove --force "$wt"; exit 2; fi
 fi
 cd "$here"
 HV_REPO="$wt" HV_EVIDENCE_DIR="/tmp/scr/ev-$sid-$prop-$$" ./check "$prop" --tier "$tier" > "/tmp/scr/out-$sid-$prop.log" 2>&1; rc=$?
